@@ -20,7 +20,7 @@ from mdsim.props.c05 import canon_meta
 PROP = "C08"
 LEVEL = "exploration"
 TECHNIQUE = "deterministic simulation: seeded histories of filter applications over aliasing dataset objects, checked step by step against a sequential reference model (refinement)"
-RUNS = {"quick": 800, "thorough": 80000}
+RUNS = {"quick": 1200, "thorough": 80000}
 BATCH = {}
 JOB_TIMEOUT = 600.0
 COMPONENTS = {
